@@ -8,6 +8,7 @@ from gen import unicode_text
 ID = 'C08'
 MODULES = ['Httoop.Props.C08', 'Httoop.Props.C08Roundtrip']
 THEOREMS = [
+	'Httoop.Headers.setdefault_spec',
 	'Httoop.Headers.compose_parse_roundtrip',
 	'Httoop.Headers.parse_block',
 	'Httoop.Headers.sortItems_perm',
